@@ -368,6 +368,28 @@ def run_pairing(ctx: Ctx) -> RuleResult:
     if not ok:
         fail(proc, proc.node, '_process does not pass every token on / route newline tokens through handle_NL / drain after the loop',
              'process-shape')
+    # a token is handed on before the bracket depth is checked: the parser, not an assertion of the post-lexer, reports an
+    # unmatched closing bracket (as UnexpectedToken at that token)
+    loops_p = [l for l in proc.node.body if isinstance(l, ast.For)]
+    ok = False
+    if len(loops_p) == 1:
+        lp_ = loops_p[0]
+        tv = lp_.target.id if isinstance(lp_.target, ast.Name) else None
+        order_ok = True
+        handed = False
+        for st in lp_.body:
+            has_yield = any(isinstance(y, (ast.Yield, ast.YieldFrom)) for y in ast.walk(st))
+            has_check = any(isinstance(y, (ast.Assert, ast.Raise)) for y in ast.walk(st))
+            if has_check and not handed:
+                order_ok = False
+            if has_yield:
+                handed = True
+        ok = order_ok and handed and tv is not None
+    res.ob(site_p, 'each token is handed on before any assertion about it can fail', ok, props=['C08', 'C18'])
+    if not ok:
+        res.finding(proc, loops_p[0] if loops_p else proc.node, 'the bracket depth is checked (assert) before the token has been passed on: an unmatched '
+                    'closing bracket raises AssertionError from the token stream instead of reaching the parser, which would report '
+                    'UnexpectedToken at it', construct='assert-before-yield', props=['C08', 'C18'])
     # handle_NL passes the newline token itself on before INDENT/DEDENT
     ys = [n for n in hnl.body_nodes() if isinstance(n, ast.Yield)]
     ys.sort(key=lambda n: (n.lineno, n.col_offset))
@@ -375,6 +397,9 @@ def run_pairing(ctx: Ctx) -> RuleResult:
     res.ob(site_h, 'the newline token itself is emitted first', ok)
     if not ok:
         fail(hnl, hnl.node, 'the newline token is not passed on before INDENT/DEDENT', 'nl-first')
+    for f_ in res.findings:
+        if f_.props is None:
+            f_.props = ['C18']
     return res
 
 
@@ -583,6 +608,22 @@ def run_grammar(ctx: Ctx) -> RuleResult:
                             nl, pattern, counted, sorted(chr(c) for c in tail) if tail is not None else 'no such run'),
                         construct='nl-terminal-indent:' + pattern, file=rel, line=terms.get(nl, (1, ''))[0])
     res.require_instances(n_re, 1, 'regexps with a newline in the newline terminal')
+    # a comment-only line must not show up as a line of its own: every named terminal the grammar %ignores that starts like a
+    # comment (its definition is a regexp beginning with `#`) is also an alternative inside the newline terminal, so the comment
+    # and the newlines around it are one token (CPython ignores comment lines for indentation)
+    ignored = [m.group(1) for m in _re.finditer(r'^%ignore\s+([A-Z_][A-Z_0-9]*)\s*(?://.*)?$', text, _re.M)]
+    for ig in ignored:
+        if ig not in terms:
+            continue
+        lits = _regex_literals(terms[ig][1])
+        if not any(p_.startswith('#') for p_, _f in lits):
+            continue
+        ok = bool(_re.search(r'(?<![A-Z_0-9])%s(?![A-Z_0-9])' % _re.escape(ig), terms[nl][1]))
+        res.ob(site, 'the ignored comment terminal %s is an alternative of the newline terminal %s' % (ig, nl), ok)
+        if not ok:
+            res.finding('lark/grammars/python.lark', None, 'the comment terminal %s is %%ignore-d but is not part of the newline terminal %s: a comment-only '
+                        'line then yields a newline token of its own whose indentation the Indenter measures -- INDENT/DEDENT/DedentError for a '
+                        'line CPython ignores' % (ig, nl), construct='nl-terminal-comment:' + ig, file=rel, line=terms.get(nl, (1, ''))[0])
     declared = set()
     for m in _re.finditer(r'^%declare\s+(.*)$', text, _re.M):
         declared |= set(m.group(1).split('//')[0].split())
